@@ -186,6 +186,9 @@ func (rc *retentionTask[T, O]) run(_ context.Context, now time.Time, l *logger.L
 
 	rc.database.incTotalRetentionStarted(1)
 	defer rc.database.incTotalRetentionFinished(1)
+	// Read the TTL on every run: UpdateOptions may have changed it since the
+	// task was created, and SelectSegments already follows the live value.
+	rc.duration = rc.database.segmentController.getOptions().TTL.estimatedDuration()
 	deadline := now.Add(-rc.duration)
 	start := time.Now()
 	hasData, err := rc.database.segmentController.remove(deadline)
